@@ -95,28 +95,28 @@ def rule_1(ctx):
     _no_truthiness_filter(ctx, f, 'IRR')
     for name in ('XIRR', 'XNPV'):
         _no_truthiness_filter(ctx, _reg(ctx, name), name)
+    # _xirr interpreted with a recording model of scipy's newton: the function handed over IS r -> _xnpv(r, values, dates) on sample
+    # rates, and the start value is the guess
     fm = ctx.mod('xlfunctions.financial')
     xi = fm.func('_xirr')
-    nw = [c for c in ast.walk(xi) if isinstance(c, ast.Call) and ctx.res.resolve(c.func, fm) == 'ext:scipy.optimize.newton']
-    ok = len(nw) == 1 and len(nw[0].args) >= 1
-    if ok:
-        target = nw[0].args[0]
-        px = func_params(xi)
-        inner, rparam = None, None
-        if isinstance(target, ast.Lambda):
-            inner, rparam = target.body, target.args.args[0].arg
-        elif isinstance(target, ast.Name):
-            defs = [d for d in ast.walk(xi) if isinstance(d, ast.FunctionDef) and d.name == target.id]
-            if len(defs) == 1:
-                rr = [r_ for r_ in ast.walk(defs[0]) if isinstance(r_, ast.Return)]
-                if len(rr) == 1:
-                    inner, rparam = rr[0].value, defs[0].args.args[0].arg
-        ok = isinstance(inner, ast.Call) and ctx.res.resolve(inner.func, fm) == 'pkg:xlfunctions.financial:_xnpv' \
-            and [ast.unparse(a) for a in inner.args] == [rparam, px[0], px[1]]
-        guess = nw[0].args[1] if len(nw[0].args) > 1 else next((k.value for k in nw[0].keywords if k.arg == 'x0'), None)
-        ok = ok and guess is not None and ast.unparse(guess) == px[2]
+    seen = {}
+
+    def newton(interp, func, x0=None, *a, **k):
+        seen['x0'] = x0 if x0 is not None else k.get('x0')
+        seen['f'] = [interp.invoke(func, [r]) for r in (0.05, 0.1, 0.3)]
+        return 0.123456
+    newton.wants_interp = True
+    flows, days = [-100.0, 40.0, 80.0], [0.0, 100.0, 365.0]
+    it = Interp(ctx.a, fm, {'v': list(flows), 'd': list(days)}, inline_pkg=True, call_models={'ext:scipy.optimize.newton': newton})
+    out = it.run(ast.parse('return _xirr(v, d, 0.07)').body)
+
+    def ref(r):
+        return sum(v / (1.0 + r) ** ((d - days[0]) / 365) for v, d in zip(flows, days))
+    ok = out.end == 'return' and out.value == 0.123456 and seen.get('x0') == 0.07 and isinstance(seen.get('f'), list) \
+        and all(isinstance(g, float) and abs(g - ref(r)) < 1e-9 for g, r in zip(seen['f'], (0.05, 0.1, 0.3)))
     ctx.expect(ok, xi, 'XIRR: Newton on r -> _xnpv(r, values, dates) from the guess',
-               '_xirr does not solve _xnpv(r, values, dates) = 0 for r starting at the guess')
+               f'_xirr does not solve _xnpv(r, values, dates) = 0 for r starting at the guess: newton received start value {seen.get("x0")!r} and a '
+               f'function with the values {seen.get("f")!r} at r = 0.05, 0.1, 0.3 (expected {[ref(r) for r in (0.05, 0.1, 0.3)]}); result {out.end} {out.value!r}')
     ctx.floor(14, 'library bindings')
 
 
@@ -280,42 +280,9 @@ def rule_4(ctx):
 
 
 def rule_5(ctx):
-    # NPV: sum(val * (1 + rate) ** -(i + 1) for i, val in enumerate(cashflow))
+    # NPV's closed form is decided on witness flows by C20.6; here the date-weighted form of _xnpv on witness flows
     f = _reg(ctx, 'NPV')
     fn = f.node
-    r = last_return(fn)
-    ok = False
-    why = 'NPV does not end in a sum over enumerate(cash flows)'
-    if r is not None and isinstance(r.value, ast.Call) and isinstance(r.value.func, ast.Name) and r.value.func.id == 'sum':
-        comp = r.value.args[0]
-        if isinstance(comp, (ast.ListComp, ast.GeneratorExp)) and isinstance(comp.generators[0].iter, ast.Call) \
-                and isinstance(comp.generators[0].iter.func, ast.Name) and comp.generators[0].iter.func.id == 'enumerate':
-            en = comp.generators[0].iter
-            start = 0
-            if len(en.args) > 1 and isinstance(en.args[1], ast.Constant):
-                start = en.args[1].value
-            for k in en.keywords:
-                if k.arg == 'start' and isinstance(k.value, ast.Constant):
-                    start = k.value.value
-            tgt = comp.generators[0].target
-            i = tgt.elts[0].id if isinstance(tgt, ast.Tuple) else None
-            v = tgt.elts[1].id if isinstance(tgt, ast.Tuple) else None
-            # exponent as a linear form in i
-            from .common import Lin, linear
-            pows = [b for b in ast.walk(comp.elt) if isinstance(b, ast.BinOp) and isinstance(b.op, ast.Pow)]
-            if len(pows) == 1 and i:
-                try:
-                    e = linear(pows[0].right, {i: Lin.var('i')})
-                    base = linear(pows[0].left, {'rate': Lin.var('rate')})
-                    divided = any(isinstance(b, ast.BinOp) and isinstance(b.op, ast.Div) and b.right is pows[0] for b in ast.walk(comp.elt))
-                    e_eff = (-e) if divided else e
-                    want = Lin(-(1 - start), {'i': -1})      # -(i - start + 1)
-                    ok = e_eff == want and base == Lin(1, {'rate': 1}) and v in names_in(comp.elt)
-                    why = (f'NPV discounts flow number i (counting from {start}) with (1+rate)^({(-e_eff)}) instead of (1+rate)^(i{-start + 1:+d}): '
-                           'the first flow must be discounted by one period')
-                except Unmodelled:
-                    why = 'NPV discount exponent is not an affine form of the flow index'
-    ctx.expect(ok, fn, 'NPV: flow i discounted by (1+rate)^(i+1)', why)
     fm = ctx.mod('xlfunctions.financial')
     xn = fm.func('_xnpv')
     px = func_params(xn)
@@ -349,7 +316,7 @@ def rule_5(ctx):
             wrong.append((cost, salvage, life, out.value, want))
     ctx.expect(not wrong, f.node, 'SLN = (cost - salvage) / life',
                f'SLN{wrong[0][:3]} gives {wrong[0][3]!r}, expected {wrong[0][4]!r}' if wrong else '')
-    ctx.floor(3, 'closed-form shapes')
+    ctx.floor(2, 'closed-form shapes')
 
 
 def rule_6(ctx):
